@@ -26,6 +26,8 @@ def bounds(tier):
     q = tier == "quick"
     return {"faulty transfers": f"length <= {78 if q else 117} ({2 if q else 3} segments), <= {2 if q else 3} delivered "
                                 f"datagrams per attempt (each any segment of the chain, or none), retry count <= 2",
+            "targeted 3-segment faults (quick)": "length 79..117, first attempt delivers (0,2), (1,2) or (2), "
+                                                 "then any <=3 deliveries in the retry",
             "fault-free twin": f"all (start,length) with length <= {200 if q else 1024}, chain delivered in order",
             "timing": "PROTOCOL_TIMEOUT scaled to 0.25 s of virtual time (3 polls per attempt)"}
 
@@ -239,6 +241,8 @@ def units(tier):
         yield Unit(f"fault-free.threaded.len{lo}-{hi}", _ranged(threaded_transfer, lo, hi, True), fresh_checks=True,
                    loop_bound=40, max_depth=2000)
         lo = hi + 1
+    if q:
+        yield from three_segment_units(tier)
     maxlen, m, R = (78, 2, 2) if q else (117, 3, 2)
     nseg = (maxlen + 38) // 39
     # the fault tree is split across processes by the first two deliveries of the first attempt
@@ -253,8 +257,20 @@ def units(tier):
                        presets=pre, max_paths=100000, max_depth=2000)
 
 
-def _ranged(factory, lo, hi, ff):
-    inner = factory(hi, 0, 1, ff)
+def three_segment_units(tier):
+    """3-segment transfers (length 79..117) where the first attempt loses or re-orders a segment but its
+    final segment arrives, followed by a retry with any <=3 deliveries: the smallest scenario in which a
+    stale partial chain could be completed by the re-sent one."""
+    for first, second in ((0, 2), (1, 2), (2, 3)):
+        for retry_first in range(4):
+            pre = {"attempt0_delivery0": first, "attempt0_delivery1": second, "attempt1_delivery0": retry_first}
+            for nm, fac in (("async", async_transfer), ("threaded", threaded_transfer)):
+                yield Unit(f"faults3.{nm}.{first}{second}.{retry_first}", _ranged(fac, 79, 117, False, m=3, R=2),
+                           fresh_checks=True, presets=pre, max_paths=100000, max_depth=2000)
+
+
+def _ranged(factory, lo, hi, ff, m=0, R=1):
+    inner = factory(hi, m, R, ff)
 
     def scenario(sx):
         class P:
